@@ -60,6 +60,21 @@ fn post_hll(s: HllSketch) {
     let img = s.serialize();
     let _ = HllSketch::deserialize(&img).map(|d| d.estimate());
     let _ = m.serialize();
+    // long drive: enough distinct items for several promotions / cur_min shifts
+    if s.lg_config_k() <= 10 {
+        let n = (48u64 << s.lg_config_k()).min(40_000);
+        for i in 0..n {
+            m.update(i);
+            if i & 1023 == 0 {
+                let _ = m.estimate();
+            }
+        }
+        let _ = (m.estimate(), m.upper_bound(NumStdDev::Two), m.serialize());
+        let mut u = HllUnion::new(s.lg_config_k().clamp(4, 21));
+        u.update(&m);
+        u.update(&s);
+        let _ = u.to_sketch(HllType::Hll4).serialize();
+    }
 }
 
 fn post_theta(c: CompactThetaSketch) {
@@ -91,6 +106,21 @@ fn post_cpc(s: CpcSketch, seed: u64) {
     let img = s.serialize();
     let _ = CpcSketch::deserialize_with_seed(&img, seed).map(|d| d.estimate());
     let _ = m.serialize();
+    // long drive through the remaining flavors and several window moves
+    if s.lg_k() <= 8 {
+        let n = (40u64 << s.lg_k()).min(12_000);
+        for i in 0..n {
+            m.update(i);
+            if i & 511 == 0 {
+                let _ = (m.estimate(), m.validate());
+            }
+        }
+        let _ = (m.estimate(), m.validate(), m.serialize());
+        let mut u = CpcUnion::with_seed(s.lg_k(), seed);
+        u.update(&m);
+        u.update(&s);
+        let _ = u.to_sketch().serialize();
+    }
 }
 
 fn post_wrapper(w: CpcWrapper) {
@@ -143,7 +173,7 @@ post_cm!(post_cm_u64, u64);
 post_cm!(post_cm_i64, i64);
 
 macro_rules! post_fi {
-    ($name:ident, $t:ty, $item:expr) => {
+    ($name:ident, $t:ty, $item:expr, $gen:expr) => {
         fn $name(s: FrequentItemsSketch<$t>) {
             let it: $t = $item;
             let _ = (s.estimate(&it), s.lower_bound(&it), s.upper_bound(&it), s.maximum_error(), s.total_weight(), s.is_empty(), s.num_active_items(), s.epsilon(), s.maximum_map_capacity(), s.current_map_capacity(), s.lg_max_map_size(), s.lg_cur_map_size());
@@ -160,15 +190,23 @@ macro_rules! post_fi {
                 let mut f = FrequentItemsSketch::<$t>::new(8);
                 f.merge(&s);
                 let _ = f.total_weight();
+                // long drive: enough distinct items to grow the map to its maximum and purge twice
+                if s.lg_max_map_size() <= 10 {
+                    let n = 3 * (1usize << s.lg_max_map_size());
+                    for i in 0..n {
+                        m.update_with_count($gen(i), 1 + (i as u64 % 3));
+                    }
+                    let _ = (m.maximum_error(), m.frequent_items(ErrorType::NoFalsePositives).len(), m.serialize());
+                }
             }
             let img = s.serialize();
             let _ = FrequentItemsSketch::<$t>::deserialize(&img).map(|d| d.total_weight());
         }
     };
 }
-post_fi!(post_fi_i64, i64, 10i64);
-post_fi!(post_fi_u64, u64, 10u64);
-post_fi!(post_fi_str, String, "a".to_string());
+post_fi!(post_fi_i64, i64, 10i64, |i: usize| 1000 + i as i64);
+post_fi!(post_fi_u64, u64, 10u64, |i: usize| 1000 + i as u64);
+post_fi!(post_fi_str, String, "a".to_string(), |i: usize| format!("item{i}"));
 
 fn post_td(mut t: TDigestMut) {
     let _ = (t.k(), t.is_empty(), t.min_value(), t.max_value(), t.total_weight());
@@ -183,6 +221,17 @@ fn post_td(mut t: TDigestMut) {
     let _ = TDigestMut::deserialize(&img, false).map(|d| d.total_weight());
     let img2 = t.serialize();
     let _ = TDigestMut::deserialize(&img2, false).map(|d| d.total_weight());
+    // long drive: several buffer flushes in both merge directions, then a merge back
+    if m.total_weight() < (1u64 << 60) {
+        let n = (12 * m.k() as usize).min(6000);
+        for i in 0..n {
+            m.update(((i * 7919) % 10007) as f64 - 5000.0);
+        }
+        let _ = (m.rank(0.0), m.quantile(0.5), m.cdf(&[-1.0, 1.0]), m.serialize());
+        let mut m2 = t.clone();
+        m2.merge(&m);
+        let _ = (m2.quantile(0.99), m2.serialize());
+    }
     let f = t.freeze();
     let _ = (f.rank(0.0), f.quantile(0.5), f.cdf(&[0.0]), f.pmf(&[0.0]));
     let _ = f.unfreeze();
@@ -524,6 +573,34 @@ pub fn build_cases(ctx: &Ctx, seeds: &[Seed]) -> Vec<Case> {
                 }
             }
         }
+        // M9 record duplication: a trailing record overwritten by a copy of another one, exact or
+        // with one bit flipped (duplicates / near-duplicates among repeated entries)
+        for &e in &s.entries {
+            for (w, nrec) in [(4usize, 8usize), (8, 4)] {
+                let len = s.bytes.len();
+                if len < 8 + 2 * w {
+                    continue;
+                }
+                let first = (len - (nrec * w).min(len - 8)) / w * w + (len % w);
+                let offs: Vec<usize> = (0..nrec).map(|i| first + i * w).filter(|&o| o >= 8 && o + w <= len).collect();
+                for &i in &offs {
+                    for &j in &offs {
+                        if i == j {
+                            continue;
+                        }
+                        for bit in 0..=(8 * w) {
+                            let mut b = s.bytes.clone();
+                            let src: Vec<u8> = b[j..j + w].to_vec();
+                            b[i..i + w].copy_from_slice(&src);
+                            if bit < 8 * w {
+                                b[i + bit / 8] ^= 1 << (bit % 8);
+                            }
+                            push(&mut cases, "record duplication", e, b, si, format!("{w}-byte record at {i} := record at {j}{}", if bit < 8 * w { format!(" with bit {bit} flipped") } else { String::new() }), locus_of(s, i));
+                        }
+                    }
+                }
+            }
+        }
         // M8 cross-family: the unmodified seed to every other entry point
         for e in 0..ENTRIES.len() {
             if !s.entries.contains(&e) {
@@ -651,7 +728,8 @@ pub fn run(ctx: &Ctx) -> i32 {
     let cov = json!({
         "exhaustive": true,
         "bounds": {
-            "operators": "per seed and entry point: every truncation, extension by 1..8 bytes of 0x00/0xFF, every single-bit flip in the first 64 bytes, 5 byte values at every offset, every named field x boundary values (0,1,2,3,max,max-1,max/2,max/2+1,cur+-1, every power of two, float specials), pairs of named-field mutations; every seed unmodified to every foreign entry point; all inputs of length <= 1 (thorough: <= 2) and valid-header short strings to every entry point",
+            "operators": "per seed and entry point: every truncation, extension by 1..8 bytes of 0x00/0xFF, every single-bit flip in the first 64 bytes, 5 byte values at every offset, every named field x boundary values (0,1,2,3,max,max-1,max/2,max/2+1,cur+-1, every power of two, float specials), pairs of named-field mutations; each of the last eight 4-byte / four 8-byte records overwritten by a copy of another (exact and with every single bit flipped); every seed unmodified to every foreign entry point; all inputs of length <= 1 (thorough: <= 2) and valid-header short strings to every entry point",
+            "post_script": "values returned as Ok are queried, re-serialized, merged with themselves, and driven with enough distinct updates for several promotions / cur_min shifts (HLL lg_k<=10), window moves (CPC lg_k<=8), map growth and two purges (FI lg_max<=10), buffer flushes in both directions (t-digest)",
             "limits": "single allocation <= max(8 MiB, 64 x input length) during deserialize (1 GiB host guard for the post-script on accepted values); 3 s per case",
         },
         "verdicts": h,
